@@ -70,6 +70,12 @@ pub enum Op {
     /// host function A (calls its first argument through tsrun_call) applied to host function B:
     /// directly through tsrun_call, or from a script through `[B].map(A)`-like natives (ctx, how)
     CallNativeWithNative(u8, u8),
+    /// A self-contained episode in a context of its own (created and freed inside the op):
+    /// kind 0 - after `pad` throwaway objects, register an internal module whose exports are two
+    /// object VALUES and `n` functions, import it from a script and read the values back;
+    /// kind 1 - install a console callback and log texts that contain U+0000 and non-ASCII
+    /// characters: the callback must receive exactly the bytes of the text (pointer + length).
+    Episode(u8, u8, u8),
 }
 
 #[derive(Clone, Debug, Serialize, Deserialize)]
@@ -166,6 +172,10 @@ extern "C" fn native_cb(
 ) -> *mut TsRunValue {
     let mode = userdata as usize as u8;
     unsafe {
+        // identity-style callbacks: hand back one of the handles that were passed in
+        if mode >= 250 {
+            return if mode % 2 == 0 && argc > 0 && !args.is_null() { *args.add((mode as usize / 2) % argc) } else { this_arg };
+        }
         match mode % 8 {
             7 => {
                 // call the first argument (possibly another host function) through the API
@@ -1134,6 +1144,91 @@ impl<'a> Exec<'a> {
                         }
                     }
                 }
+                Op::Episode(kind, pad, n) => {
+                    let ctx = tsrun_new();
+                    if ctx.is_null() {
+                        return;
+                    }
+                    self.rep.bump("episodes", 1);
+                    if kind % 2 == 0 {
+                        // throwaway objects first: moves the point where the threshold collector runs
+                        for i in 0..(*pad as usize % 130) {
+                            let t = self.c(&format!("{{\"pad\":{},\"l\":[{{}}]}}", i));
+                            let r = tsrun_json_parse(ctx, t);
+                            if !r.value.is_null() {
+                                tsrun_value_free(r.value);
+                            }
+                        }
+                        let spec = self.c("host:episode");
+                        let m = tsrun_internal_module_new(spec);
+                        let cfg = tsrun_json_parse(ctx, self.c("{\"port\":8080,\"tags\":[{\"t\":1},{\"t\":2}],\"name\":\"cfg\"}"));
+                        tsrun_internal_module_add_value(m, self.c("config"), cfg.value); // ownership moves to the module
+                        for i in 0..(*n as usize % 6) {
+                            tsrun_internal_module_add_function(m, self.c(&format!("f{}", i)), native_cb, 1, 3usize as *mut c_void);
+                        }
+                        let extra = tsrun_json_parse(ctx, self.c("[{\"e\":[1,2,{\"deep\":true}]},\"x\"]"));
+                        tsrun_internal_module_add_value(m, self.c("extra"), extra.value);
+                        tsrun_internal_module_add_function(m, self.c("last"), native_cb, 1, 3usize as *mut c_void);
+                        let r = tsrun_register_internal_module(ctx, m);
+                        if !r.ok {
+                            self.fail("episode_register_failed", "tsrun_register_internal_module".into(), json!({}));
+                        }
+                        let code = self.c("import { config, extra, last } from \"host:episode\"; const junk: any[] = []; for (let i = 0; i < 30; i++) { junk.push({ i: i }); } JSON.stringify([config, extra, typeof last])");
+                        let pr = tsrun_prepare(ctx, code, ptr::null());
+                        let mut got = String::from("<no result>");
+                        if pr.ok {
+                            let mut res = TsRunStepResult::default();
+                            tsrun_run(&mut res, ctx);
+                            if res.status == TsRunStepStatus::Complete && !res.value.is_null() {
+                                if let Some(Ok(s)) = read_cstr(tsrun_get_string(res.value)) {
+                                    got = s;
+                                }
+                            } else if res.status == TsRunStepStatus::Error {
+                                got = format!("error:{}", read_cstr(res.error).and_then(|r| r.ok()).unwrap_or_default());
+                            } else {
+                                got = format!("status:{}", res.status as u32);
+                            }
+                            tsrun_step_result_free(&mut res);
+                        }
+                        let want = "[{\"name\":\"cfg\",\"port\":8080,\"tags\":[{\"t\":1},{\"t\":2}]},[{\"e\":[1,2,{\"deep\":true}]},\"x\"],\"function\"]";
+                        if got != want {
+                            self.fail("internal_module_value_export_changed", got.chars().take(200).collect(), json!({"expected": want, "observed": got, "pad": pad, "functions": n % 6}));
+                        }
+                        self.rep.bump("episode_internal_module_imported", 1);
+                    } else {
+                        thread_local! { static SEEN: std::cell::RefCell<Vec<Vec<u8>>> = const { std::cell::RefCell::new(Vec::new()) }; }
+                        extern "C" fn rec(_: TsRunConsoleLevel, msg: *const c_char, len: usize, _: *mut c_void) {
+                            let bytes = if msg.is_null() || len == 0 { Vec::new() } else { unsafe { std::slice::from_raw_parts(msg as *const u8, len) }.to_vec() };
+                            SEEN.with(|s| s.borrow_mut().push(bytes));
+                        }
+                        SEEN.with(|s| s.borrow_mut().clear());
+                        let r = tsrun_set_console(ctx, Some(rec), ptr::null_mut());
+                        if !r.ok {
+                            self.fail("episode_set_console_failed", "tsrun_set_console".into(), json!({}));
+                        }
+                        let texts: [&str; 5] = ["a\u{0}b", "\u{0}", "naïve\u{0}✓ 日本語", "plain", "tail\u{0}"];
+                        let pick = &texts[(*pad as usize) % texts.len()];
+                        let lit: String = pick.chars().map(|c| if c == '\u{0}' { "\\u0000".to_string() } else { c.to_string() }).collect();
+                        let code = self.c(&format!("console.log(\"{}\"); console.warn(\"{}\" + \"!\"); 1", lit, lit));
+                        let pr = tsrun_prepare(ctx, code, ptr::null());
+                        if pr.ok {
+                            let mut res = TsRunStepResult::default();
+                            tsrun_run(&mut res, ctx);
+                            tsrun_step_result_free(&mut res);
+                        }
+                        let seen: Vec<Vec<u8>> = SEEN.with(|s| s.borrow().clone());
+                        let want: Vec<Vec<u8>> = vec![pick.as_bytes().to_vec(), format!("{}!", pick).into_bytes()];
+                        if seen != want {
+                            self.fail(
+                                "console_callback_bytes_differ_from_logged_text",
+                                format!("{:?}", seen).chars().take(200).collect(),
+                                json!({"expected": want, "observed": seen}),
+                            );
+                        }
+                        self.rep.bump("episode_console_with_nul", 1);
+                    }
+                    tsrun_free(ctx);
+                }
                 Op::Answer(c, how, v, release_now, churn) => {
                     if let Some(c) = self.live_ctx(*c) {
                         if self.ctxs[c].unanswered.is_empty() {
@@ -1415,8 +1510,8 @@ impl<'a> Exec<'a> {
 pub fn generate_history(rng: &mut Rng) -> Scn {
     let n = if rng.chance(0.6) { rng.range(5, 40) } else { rng.range(40, 200) } as usize;
     let mut ops = vec![Op::NewCtx];
-    let w: [u32; 38] = [
-        1, 1, 8, 6, 5, 5, 4, 5, 4, 8, 6, 6, 8, 2, 2, 5, 3, 2, 4, 5, 4, 7, 3, 3, 5, 5, 4, 1, 2, 1, 2, 3, 9, 4, 5, 4, 2, 2,
+    let w: [u32; 39] = [
+        1, 1, 8, 6, 5, 5, 4, 5, 4, 8, 6, 6, 8, 2, 2, 5, 3, 2, 4, 5, 4, 7, 3, 3, 5, 5, 4, 1, 2, 1, 2, 3, 9, 4, 5, 4, 2, 2, 2,
     ];
     for _ in 0..n {
         let a = (rng.next_u64() & 0xff) as u8;
@@ -1450,7 +1545,7 @@ pub fn generate_history(rng: &mut Rng) -> Scn {
             23 => Op::CallMethod(a, b, c),
             24 => Op::SetGlobal(a, c, b),
             25 => Op::GetGlobal(a, c),
-            26 => Op::NativeFn(a, c),
+            26 => Op::NativeFn(a, if d % 5 == 0 { 250 + (c % 6) } else { c }),
             27 => Op::GcStats(a),
             28 => Op::GetExport(a, c),
             29 => Op::ExportNames(a),
@@ -1461,7 +1556,8 @@ pub fn generate_history(rng: &mut Rng) -> Scn {
             34 => Op::DetachChild(a, b, c, (d & 0xff) as u8),
             35 => Op::DetachAlias(a, b, c % 2 == 0, (d & 0xff) as u8),
             36 => Op::CallSelfWriter(a, c),
-            _ => Op::CallNativeWithNative(a, c),
+            37 => Op::CallNativeWithNative(a, c),
+            _ => Op::Episode(a % 2, c, (d & 0xff) as u8),
         });
     }
     Scn {
